@@ -87,6 +87,8 @@ inductive Event (α : Type) where
   | call (s : Sig) (args : List Obj) (b : Beh α)
   /-- the client writes `ws` into cells of the result of call number `target` -/
   | mutate (target : Nat) (ws : List (Ref × α))
+  /-- the client builds new objects (e.g. a list or DataFrame made to be handed to the next call) -/
+  | alloc (news : List α)
 
 structure State (α : Type) where
   heap : Heap α
@@ -107,6 +109,7 @@ def step {α} (T : List Sig) (st : State α) : Event α → Option (State α)
     | some (true, refs) =>
       if ws.all (fun w => refs.contains w.1) then some { st with heap := applyWrites st.heap ws } else none
     | _ => none
+  | .alloc news => some { st with heap := st.heap ++ news }
 
 def run {α} (T : List Sig) (st : State α) : List (Event α) → Option (State α)
   | [] => some st
@@ -120,9 +123,6 @@ def run {α} (T : List Sig) (st : State α) : List (Event α) → Option (State 
 private def pureCopy (name : String) (arity : Nat := 1) (deep : Bool := false) : Sig :=
   { name, arity, writes := [], shares := [], copy := true, deep }
 
-/-- converters whose result carries the source chart's `tags` list itself (`qua.tags = osu.tags`; finding N14a) -/
-def n14aOps : List String := ["conv.OsuToQua.convert", "conv.QuaToOsu.convert"]
-
 def converterOps : List String :=
   ["conv.OsuToQua.convert", "conv.OsuToSM.convert", "conv.OsuToBMS.convert",
    "conv.QuaToOsu.convert", "conv.QuaToSM.convert", "conv.QuaToBMS.convert",
@@ -134,8 +134,12 @@ def converterOps : List String :=
 def writerOps : List String := ["write.osu", "write.quaver", "write.sm", "write.bms"]
 
 def converterSig (name : String) : Sig :=
-  { name, arity := 1, writes := [], shares := if n14aOps.contains name then [(0, "tags")] else [],
-    copy := true, deep := true }
+  { name, arity := 1, writes := [], shares := [], copy := true, deep := true }
+
+/-- `OsuToQua.convert` / `QuaToOsu.convert` as they were written before the repair (D38): `qua.tags = osu.tags`
+handed the source chart's `tags` list itself to the result -/
+def converterSharingTags (name : String) : Sig :=
+  { name, arity := 1, writes := [], shares := [(0, "tags")], copy := true, deep := true }
 
 /-- `sv_normalize` as it was written before the repair (D17): it assigned a column into the caller's tempo frame -/
 def svNormalizeAsWritten : Sig :=
@@ -160,8 +164,5 @@ def opTable : List Sig :=
     pureCopy "ptn.from_note_lists" 2, pureCopy "ptn.group", pureCopy "ptn.combinations" ]
 
 def lookup (name : String) : Option Sig := opTable.find? (fun s => s.name = name)
-
-/-- the table without the two converters of finding N14a -/
-def opTableNoN14a : List Sig := opTable.filter (fun s => !n14aOps.contains s.name)
 
 end Reamber.Effects
